@@ -30,6 +30,49 @@ impl<T> VecDeque<T> {
         self.slots[self.len] = Some(v);
         self.len += 1;
     }
+    pub fn push_front(&mut self, v: T) {
+        assert!(self.len < MDEQUE_CAP, "MODEL CAPACITY: VecDeque model holds at most MDEQUE_CAP elements");
+        let mut i = MDEQUE_CAP - 1;
+        while i > 0 {
+            self.slots[i] = self.slots[i - 1].take();
+            i -= 1;
+        }
+        self.slots[0] = Some(v);
+        self.len += 1;
+    }
+    pub fn pop_back(&mut self) -> Option<T> {
+        if self.len == 0 {
+            return None;
+        }
+        self.len -= 1;
+        self.slots[self.len].take()
+    }
+    pub fn back(&self) -> Option<&T> {
+        if self.len == 0 { None } else { self.slots[self.len - 1].as_ref() }
+    }
+    pub fn back_mut(&mut self) -> Option<&mut T> {
+        if self.len == 0 { None } else { self.slots[self.len - 1].as_mut() }
+    }
+    pub fn get_mut(&mut self, i: usize) -> Option<&mut T> {
+        if i < self.len { self.slots[i].as_mut() } else { None }
+    }
+    pub fn insert(&mut self, at: usize, v: T) {
+        assert!(self.len < MDEQUE_CAP, "MODEL CAPACITY: VecDeque model holds at most MDEQUE_CAP elements");
+        assert!(at <= self.len, "index out of bounds");
+        let mut i = MDEQUE_CAP - 1;
+        while i > at {
+            self.slots[i] = self.slots[i - 1].take();
+            i -= 1;
+        }
+        self.slots[at] = Some(v);
+        self.len += 1;
+    }
+    pub fn truncate(&mut self, n: usize) {
+        while self.len > n {
+            self.len -= 1;
+            self.slots[self.len] = None;
+        }
+    }
     pub fn pop_front(&mut self) -> Option<T> {
         if self.len == 0 {
             return None;
